@@ -1,2 +1,6 @@
 import TransportVerif.Props.C08
-#print axioms TV.Props.C08.placeholder
+#print axioms TV.Props.C08.no_stranded_reader
+#print axioms TV.Props.C08.close_wakes_all
+#print axioms TV.Props.C08.token_implies_nobody_parked
+#print axioms TV.Props.C08.read_at_lock
+#print axioms TV.Props.C08.count_conserved
